@@ -199,6 +199,10 @@ pub fn modes(seed: u64, thorough: bool) -> Vec<BuildSpec> {
             }
         }
     }
+    // text-level contents: valid UTF-8 by Unicode category (the mode choice is defined on bytes; char-level classification differs here)
+    for (i, (cat, t)) in unicode_texts(seed, thorough).into_iter().enumerate() {
+        out.push(spec(t, if i % 4 == 0 { Some(i % 4) } else { None }, None, None, None, format!("unicode:{cat}")));
+    }
     // class patterns: 0 = digit, 1 = alphanumeric but not digit, 2 = other
     let reps: [&[u8]; 3] = [b"0189", b"AZ $%*+-./:", b"az,#_\x00\x7f\x80\xff;@[`"];
     let maxlen = if thorough { 8 } else { 6 };
@@ -261,6 +265,12 @@ pub fn total(seed: u64, thorough: bool) -> Vec<BuildSpec> {
         let mask = [None, Some(0), Some(7), None][(i / 11) % 4];
         let mut s = spec(p, ecl, mode, version, mask, format!("len:{kind}:{}", (i / 7) % 5));
         s.lite = !(thorough || n <= 60 || i % 16 == 0);
+        out.push(s);
+    }
+    // text-level contents (valid UTF-8 by Unicode category)
+    for (i, (cat, t)) in unicode_texts(seed, thorough).into_iter().enumerate() {
+        let mut s = spec(t, [None, Some(0), Some(3)][i % 3], None, [None, None, Some(1), Some(40)][i % 4], None, format!("unicode:{cat}"));
+        s.lite = true;
         out.push(s);
     }
     // lengths around 2^16 and far beyond, constant and mixed content
